@@ -10,6 +10,7 @@ import Jrpc.Stream
 import Jrpc.Corr
 import Jrpc.Cancel
 import Jrpc.Keepalive
+import Jrpc.Redial
 /-
   Jrpc.Ops — dispatch of driver operations onto the model's executable definitions.
 -/
@@ -287,6 +288,40 @@ def opLocks (j : Json) : R Json := do
   return Json.mkObj [("accepted", refused.isNone), ("refusedAt", optJ (fun (n : Nat) => (n : Json)) refused),
                      ("monitor", Locks.sectionsOK none es), ("sections", s.msgNo), ("generation", s.gen)]
 
+/-- op "redial": the redial-goroutine events of one client connection, with their hook times. -/
+def opRedial (j : Json) : R Json := do
+  let cj ← fld j "cfg"
+  let cfg : Redial.Cfg := { reconnect := ← bool cj "reconnect", minDelay := ← nat cj "minDelay" }
+  let es ← (arrD j "events").mapM (fun e => do
+    let t ← nat e "t"
+    match (← str e "e") with
+    | "loss" => return Redial.Ev.loss t
+    | "spawn" => return Redial.Ev.spawn t
+    | "sleep" => return Redial.Ev.sleep (← nat e "n") t
+    | "dial" => return Redial.Ev.dial (← nat e "n") t
+    | "swap" => return Redial.Ev.swap t
+    | "abort" => return Redial.Ev.abort t
+    | "exit" => return Redial.Ev.exit t
+    | x => throw s!"bad redial event {x}")
+  let (s, refused) := replay (Redial.step? cfg) {} es
+  return Json.mkObj [("accepted", refused.isNone), ("refusedAt", optJ (fun (n : Nat) => (n : Json)) refused),
+                     ("dials", Json.arr (s.dials.reverse.map (fun p => Json.arr #[(p.1 : Json), (p.2 : Json)])).toArray),
+                     ("up", decide (s.pc = .up)), ("gone", s.gone)]
+
+/-- op "retryloop": the method-level retry loop over the outcomes of its attempts. -/
+def opRetryLoop (j : Json) : R Json := do
+  let outs ← (arrD j "outs").mapM (fun o => do
+    match o.getStr? with
+    | .ok "connErr" => return Redial.Attempt.connErr
+    | .ok "sendErr" => return Redial.Attempt.sendErr
+    | .ok "answer" => return Redial.Attempt.answer 0
+    | _ => throw "bad attempt outcome")
+  match Redial.retryLoop (← bool j "retry") outs with
+  | none => return Json.mkObj [("returns", false)]
+  | some (a, n) =>
+    let k := match a with | .connErr => "connErr" | .sendErr => "sendErr" | .answer _ => "answer"
+    return Json.mkObj [("returns", true), ("result", k), ("attempts", n)]
+
 def streamEv (e : Json) : R Stream.Ev := do
   match (← str e "e") with
   | "reg" => return .reg
@@ -518,6 +553,8 @@ def run (j : Json) : R Json := do
   | "http" => opHttp j
   | "handle" => opHandle j
   | "wscall" => opWsCall j
+  | "redial" => opRedial j
+  | "retryloop" => opRetryLoop j
   | "agree" => opAgree j
   | "perm" => opPerm j
   | "backoff" => opBackoff j
